@@ -672,3 +672,42 @@ def overlap_history(rng):
         g.ops.append("proc app %s run=%s" % (h, run))
     g.ops.append("proc cleanexit default=200")
     return g.ops
+
+
+def _garbage(rng):
+    """a message body the daemon rejects (not a flatbuffer of the protocol): random bytes, zeros, 0xff, of a length below
+    and above that of an App message"""
+    if rng.random() < 0.5:
+        # exactly as long as the App message that preceded it
+        return "same:" + rng.choice(["ff", "00", "7b", "5b22", "20", "%02x%02x%02x" % (rng.randrange(256), rng.randrange(256), rng.randrange(256))])
+    n = rng.choice([1, 4, 7, 16, 60, 200, 700, 1500])
+    k = rng.random()
+    if k < 0.4:
+        b = bytes(rng.randrange(256) for _ in range(n))
+    elif k < 0.7:
+        b = b"\xff" * n
+    else:
+        b = b"\x00" * n
+    return b.hex()
+
+
+def _wireify(fn):
+    """half of the agents' queries travel as real App messages over a connection (`wire=1`), and half of those are followed on
+    the same connection by a message the daemon rejects"""
+    def w(rng, *a, **k):
+        out = []
+        for o in fn(rng, *a, **k):
+            if o.startswith("proc app ") and "wire=" not in o and rng.random() < 0.5:
+                o += " wire=1"
+                if rng.random() < 0.5:
+                    o += " after=" + _garbage(rng)
+            out.append(o)
+        return out
+    w.__doc__ = fn.__doc__
+    w.__name__ = fn.__name__
+    return w
+
+
+for _n in ["history", "retry_history", "lifecycle_history", "malformed_history", "capacity_history", "zero_limit_history",
+           "package_history", "rule_change_history", "overlap_history"]:
+    globals()[_n] = _wireify(globals()[_n])
